@@ -213,7 +213,15 @@ class CFG:
             return self._try(st, k)
         if isinstance(st, (ast.With, ast.AsyncWith)):
             return self._with(st, k)
-        if isinstance(st, ast.Match) or st.__class__.__name__ == 'TryStar':
+        if isinstance(st, ast.Match):
+            # structural patterns the loader could not turn into tests: a non-deterministic choice between the cases (and falling through)
+            n = self._new('stmt', st)
+            for case in st.cases:
+                n.add('case', self._block(case.body, k))
+            n.add('next', k.nxt)
+            self._exc_edges(n, st, k)
+            return n
+        if st.__class__.__name__ == 'TryStar':
             raise NotImplementedError(f'{self.unit.loc(st)}: statement kind {type(st).__name__} not modelled')
         n = self._new('stmt', st)
         n.add('next', k.nxt)
